@@ -19,6 +19,7 @@ from .kernel import HarnessError, Streams, Trace, canon, h64
 from .simfs import ChunkyText, Fault, FaultyStringIO, SimFS, make_caller_wrapper, norm_encoding
 
 PROP = 'C19'
+LEGAL_FAULTS = ('short', 'EINTR')   # the io stack must absorb these: the operation sees nothing
 
 RUN_CLASSES = ('faultfree', 'faulty', 'realdisk')
 
@@ -45,7 +46,7 @@ def gen_knobs(rng, cls):
         'wrapper_newline': rng.choice([None, '', '\n', '\r\n']),
         'n_kinds': rng.choice([3, 5, 8, len(C19_KINDS)]),
         'text_chunk': rng.choice([1, 3, 16, 100, 4096]),
-        'fault_kinds': sorted(rng.sample(['ENOSPC', 'EIO', 'short', 'open', 'sticky', 'stream'], rng.choice([2, 3, 4, 6]))),
+        'fault_kinds': sorted(rng.sample(['ENOSPC', 'EIO', 'short', 'open', 'sticky', 'stream', 'EINTR', 'corrupt'], rng.choice([2, 3, 4, 6, 8]))),
     }
 
 
@@ -205,6 +206,18 @@ def gen_plan(seed: int, cls: str) -> dict:
         for op in ops:
             if rf.random() < 0.45:
                 op['faults'] = gen_faults(rf, op, knobs)
+        if 'corrupt' in knobs['fault_kinds']:
+            # stored bytes change under pane's feet (media error, another process truncating the file): the
+            # next read may fail or return anything, but must terminate, close its handle and leave streams alone
+            k = 0
+            while k < len(ops):
+                if ops[k]['op'] == 'write' and ops[k]['sink'] in SINKS_PATH and rf.random() < 0.4:
+                    ops.insert(k + 1, {'op': 'corrupt', 'sink': ops[k]['sink'], 'how': rf.choice(['truncate', 'flip', 'badutf8', 'empty']),
+                                       'at': rf.random()})
+                    ops.insert(k + 2, {'op': rf.choice(['read', 'read', 'read_all']), 'src': ops[k]['sink'], 'via': rf.choice(['func', 'method']),
+                                       'pathkind': rf.choice(PATHKINDS)})
+                    k += 2
+                k += 1
     return {'prop': PROP, 'seed': seed, 'cls': cls, 'knobs': knobs, 'defs': defs, 'values': values, 'ops': ops}
 
 
@@ -232,15 +245,17 @@ def gen_faults(rf, op, knobs):
         k = rf.choice([1, 1, 1, 2, 2, 3, 4, 5, 8, 13, 21])
         if target in SINKS_PATH or target == 's1':
             where = 'raw_write' if writing else 'raw_read'
-            cands = [x for x in ('ENOSPC', 'EIO', 'short') if x in fk] or ['EIO']
+            cands = [x for x in ('ENOSPC', 'EIO', 'short', 'EINTR') if x in fk] or ['EIO']
             kind = rf.choice(cands)
             if not writing and kind == 'ENOSPC':
                 kind = 'EIO'
+            if target == 's1' and kind == 'EINTR':
+                kind = 'short'
             if target in SINKS_PATH and 'open' in fk and rf.random() < 0.12:
                 out.append({'where': 'open', 'kind': rf.choice(['ENOENT', 'EACCES', 'EISDIR']), 'k': 1, 'sticky': False})
                 continue
             out.append({'where': where, 'kind': kind, 'k': k,
-                        'sticky': kind != 'short' and 'sticky' in fk and rf.random() < 0.3})
+                        'sticky': kind not in LEGAL_FAULTS and 'sticky' in fk and rf.random() < 0.3})
         elif target == 's2':
             out.append({'where': 'stream_write' if writing else 'stream_read', 'kind': 'EIO', 'k': k, 'sticky': False})
     return out
@@ -460,6 +475,8 @@ class Exec:
                     self.do_write(i, op)
                 elif op['op'] in ('read', 'read_all'):
                     self.do_read(i, op)
+                elif op['op'] == 'corrupt':
+                    self.do_corrupt(i, op)
                 else:
                     raise HarnessError(f"unknown op {op}")
             except Violation as v:
@@ -515,6 +532,31 @@ class Exec:
                 return 'injected'
             cur = cur.__cause__ or cur.__context__
         return 'other'
+
+    def do_corrupt(self, i, op):
+        sink = self.sinks[op['sink']]
+        path = self.path_arg(sink.name, 'str')
+        if not os.path.exists(path):
+            self.trace.add('skip', i, 'corrupt-absent')
+            return
+        with open(path, 'rb') as f:
+            raw = bytearray(f.read())
+        pos = int(op['at'] * len(raw)) if raw else 0
+        how = op['how']
+        if how == 'truncate':
+            raw = raw[:pos]
+        elif how == 'flip' and raw:
+            raw[min(pos, len(raw) - 1)] ^= 0x55
+        elif how == 'badutf8':
+            raw[pos:pos] = b'\xff\xfe\xc3'
+        else:
+            raw = bytearray()
+        with open(path, 'wb') as f:
+            f.write(raw)
+        sink.state = 'torn'
+        sink.docs = []
+        self.count('stored_bytes_corrupted:' + how)
+        self.trace.add('corrupt', i, sink.name, how)
 
     def do_write(self, i, op):
         pane = self.pane
@@ -592,7 +634,7 @@ class Exec:
             self.fs.disarm()
             self.check_ownership(i, op, sink, opened_before, fds_before, 'on_return')
         fired = self.fired_summary()
-        err_fired = [f for (f, _) in self.fs.fired if f.kind != 'short']
+        err_fired = [f for (f, _) in self.fs.fired if f.kind not in LEGAL_FAULTS]
         for f in fired:
             self.count('fault_fired:' + f)
             self.last_fault = f
@@ -634,7 +676,7 @@ class Exec:
         self._check_text(content, [(d[0], d[1]) for d in sink.docs], f"sink {sink.name}")
         if err_fired:
             self.count('error_fired_but_write_intact')
-        if any(f.kind == 'short' for (f, _) in self.fs.fired):
+        if any(f.kind in LEGAL_FAULTS for (f, _) in self.fs.fired):
             self.count('short_write_retried')
         if len(sink.docs) > 1:
             self.count('multi_doc_appended')
@@ -763,7 +805,7 @@ class Exec:
             self.fs.disarm()
             self.check_ownership(i, op, sink, opened_before, fds_before, 'on_return')
         fired = self.fired_summary()
-        err_fired = [f for (f, _) in self.fs.fired if f.kind != 'short']
+        err_fired = [f for (f, _) in self.fs.fired if f.kind not in LEGAL_FAULTS]
         for f in fired:
             self.count('fault_fired:' + f)
             self.last_fault = f
@@ -808,7 +850,7 @@ class Exec:
         else:
             if not _eq(ret, ent['x']):
                 raise Violation('read_wrong_value', f"read back {mask(repr(ret))[:120]} != written {mask(repr(ent['x']))[:120]}")
-        if any(f.kind == 'short' for (f, _) in self.fs.fired):
+        if any(f.kind in LEGAL_FAULTS for (f, _) in self.fs.fired):
             self.count('short_read_ok')
         if is_stream:
             # the caller's stream must still be usable by the caller
@@ -944,10 +986,10 @@ def extra_phase(verif_seed, tier, agg):
             if opk == 'write' and nw:
                 n_ops += 1
                 for k in range(1, min(nw, 40) + 1):
-                    items.append(('faultfree', r['index'], op_i, ('EIO', 'ENOSPC', 'short')[k % 3], k, 'raw_write'))
+                    items.append(('faultfree', r['index'], op_i, ('EIO', 'ENOSPC', 'short', 'EINTR')[k % 4], k, 'raw_write'))
             elif opk != 'write':
                 for k in (1, 2, 3):
-                    items.append(('faultfree', r['index'], op_i, ('EIO', 'short')[k % 2], k, 'raw_read'))
+                    items.append(('faultfree', r['index'], op_i, ('EIO', 'short', 'EINTR')[k % 3], k, 'raw_read'))
     items.sort()
     viol = []
     counters = {}
